@@ -227,6 +227,11 @@ def gen_reduce(rng, n):
                 break
         cases.append({"mode": "reduce", "dtype": dt, "shape": shape, "order": rng.choice(["C", "C", "F"]),
                       "mm_offset": rng.choice([0, 0, 8, 24, 4096 + 16]), "tail": rng.choice([0, 5]), "ops": ops})
+    # axes permuted (3-D and 4-D): the view covers one gap-free segment of the buffer without being contiguous
+    for order in ("C", "F"):
+        for shape, perm in (([2, 3, 4], [1, 0, 2]), ([2, 3, 4], [0, 2, 1]), ([3, 2, 2], [2, 0, 1]), ([2, 2, 3, 2], [1, 0, 3, 2])):
+            cases.append({"mode": "reduce", "dtype": rng.choice(["<i8", "<f4"]), "shape": shape, "order": order,
+                          "mm_offset": rng.choice([0, 24]), "ops": [["perm", perm]]})
     # the shapes the fixed finding F28 is about: transposes and contiguous slices of C- and F-ordered memmaps
     for order in ("C", "F"):
         for ops in ([["T"]], [["T"], ["slice", [[None, None, None], [None, None, None]]]], [["slice", [[1, 3, None], [None, None, None]]]],
